@@ -28,7 +28,8 @@ def gen_txring(P):
                         ln = r.randrange(3000, 9000)
                     # we do not know how many bytes will be accepted; the harness output tells the oracle.
                     # position coding continues from `pos` assuming everything before was accepted or retried:
-                    ops.append(f"tx writepos {ln}")
+                    # sometimes the write half is polled by a second task (another waker)
+                    ops.append(f"tx {'writeposb' if r.random() < 0.25 else 'writepos'} {ln}")
                 elif k < 0.55:
                     ops.append(f"tx trunc {r.choice([0, 1, 2, r.randrange(0, cap + 2)])}")
                     if r.random() < 0.7:
@@ -74,6 +75,7 @@ def oracle_txring(P):
         caps = []
         maxes = []
         pending_write_waiting = False
+        last_poller = None
         dead = False
         for op, out in zip(case, impl):
             t = op.split()
@@ -90,14 +92,21 @@ def oracle_txring(P):
                 caps = [int(t[2])]
                 written = removed = 0
                 pending_write_waiting = False
-            elif t[1] == "writepos":
+                last_poller = None
+            elif t[1] in ("writepos", "writeposb"):
+                if res == "pending" and kv.get("wb" if t[1] == "writeposb" else "ww", "0") == "0":
+                    # (a Pending that comes with a self-wake is the cooperative yield: nothing was registered)
+                    last_poller = "b" if t[1] == "writeposb" else "a"
                 if res.startswith("ready:"):
                     n = int(res.split(":")[1])
                     if n == 0 or n > int(t[2]):
                         hits.append({"sig": {"oracle": "txring", "what": "write_count"}, "text": f"{op} -> {out}"})
                     written += n
-                elif res == "pending" and kv.get("ww") == "0":
+                elif res == "pending" and kv.get("ww") == "0" and kv.get("wb", "0") == "0":
                     pending_write_waiting = True
+            elif t[1] in ("flush", "shutdown"):
+                if res == "pending" and kv.get("ww", "0") == "0":
+                    last_poller = "a"         # polled by task A: its waker replaces whatever was stored
             elif t[1] == "trunc":
                 if res == "ok":
                     removed += int(t[2])
@@ -106,7 +115,11 @@ def oracle_txring(P):
             elif t[1] == "grow":
                 maxes.append(int(t[2]))
             elif t[1] == "takeww":
-                if pending_write_waiting and kv.get("ww") != "1":
+                tot = int(kv.get("ww", 0)) + int(kv.get("wb", 0))
+                if pending_write_waiting and tot == 1 and last_poller is not None and kv.get("wb" if last_poller == "b" else "ww") != "1":
+                    hits.append({"sig": {"oracle": "txring", "what": "stale_waker_woken"},
+                                 "text": f"the write half was last polled (Pending) by task {last_poller.upper()}, but `{op}` woke the other task: {out}: the task actually waiting in write is never woken"})
+                if pending_write_waiting and tot != 1:
                     hits.append({"sig": {"oracle": "txring", "what": "writer_not_woken"},
                                  "text": f"a write that found the buffer full returned Pending but no writer waker was registered: `{op}` -> {out}"})
                 pending_write_waiting = False
@@ -143,7 +156,7 @@ def stats_txring(case, impl, dist):
         dist["tx_" + t[1]] = dist.get("tx_" + t[1], 0) + 1
         res = out.split()[0] if out else ""
         dist["txres_" + res.split(":")[0]] = dist.get("txres_" + res.split(":")[0], 0) + 1
-        if t[1] == "writepos" and res == "pending":
+        if t[1] in ("writepos", "writeposb") and res == "pending":
             full = True
         if t[1] == "grow" and res not in ("-", "bad-op"):
             grew = True
